@@ -166,3 +166,24 @@ class ToyHashlib(object):
     sha256 = staticmethod(lambda d=b'': ToyHashObj('sha256', d))
     sha384 = staticmethod(lambda d=b'': ToyHashObj('sha384', d))
     sha512 = staticmethod(lambda d=b'': ToyHashObj('sha512', d))
+
+
+# --------------------------------------------------------------------------- toy block cipher (Toy.C09_ToyOracle.toy_blk_enc)
+class ToyBlock(object):
+    """stands in for a Rijndael object: add the key bytes cyclically, rotate the block by one position"""
+
+    def __init__(self, key):
+        self.key = bytes(key)
+
+    def _k(self, i):
+        return self.key[i % max(1, len(self.key))] if self.key else 0
+
+    def encrypt(self, blk):
+        x = [(b + self._k(i)) % 256 for i, b in enumerate(bytes(blk))]
+        return bytearray(x[1:] + x[:1])
+
+    def decrypt(self, blk):
+        blk = list(bytes(blk))
+        n = len(blk)
+        x = blk[n - 1:] + blk[:n - 1]
+        return bytearray((b - self._k(i)) % 256 for i, b in enumerate(x))
